@@ -625,6 +625,21 @@ func (w *MyWorld) applyLocked(r *MyHost, max int) int {
 }
 
 // Saturate runs replication to a fixed point (eager world policy).
+// Ragged: every replica fetches and applies a bounded, caller-chosen number of
+// transactions (pick(host, "fetch"|"apply") -> max), then acknowledgements are delivered.
+func (w *MyWorld) Ragged(pick func(host, what string) int) {
+	w.mu.Lock()
+	defer w.mu.Unlock()
+	for _, name := range w.Order {
+		r := w.Hosts[name]
+		w.fetchLocked(r, pick(name, "fetch"))
+		w.applyLocked(r, pick(name, "apply"))
+	}
+	for _, name := range w.Order {
+		w.ackLocked(w.Hosts[name])
+	}
+}
+
 func (w *MyWorld) Saturate() {
 	w.mu.Lock()
 	defer w.mu.Unlock()
@@ -882,6 +897,14 @@ func (w *MyWorld) execute(inst, host, q string, lockWait int) (*MyResult, *MyErr
 	blocked := w.blocked[inst+">"+host]
 	if hh := w.Hosts[host]; hh != nil && hh.Net == "isolated" {
 		blocked = true // an isolated host answers nothing, on established connections either
+	}
+	// "island": the whole machine is cut off the network - its own mysync still talks to the
+	// local server, nobody else does, and it reaches no other server
+	if hh := w.Hosts[host]; hh != nil && hh.Net == "island" && inst != host {
+		blocked = true
+	}
+	if hi := w.Hosts[inst]; hi != nil && hi.Net == "island" && inst != host {
+		blocked = true
 	}
 	hook := w.Hook
 	w.mu.Unlock()
